@@ -977,6 +977,7 @@ def _evaluated_then_structural(run: Run, rule: str, evaluated, structural, *args
 
 
 def run(run: Run):
+    from .common import cached_guard as _cached_guard
     src = get_source()
     g = get_grammar(src)
     em = get_emission(src)
@@ -988,9 +989,9 @@ def run(run: Run):
     run.rule('C17.R5', 'argument plumbing of LEFT/RIGHT/MID/SEARCH/VALUE/CONCATENATE equals the confirmed reference')
     run.rule('C17.R6', 'a text literal in operand position denotes its own text')
     run.rule('C17.R7', 'VALUE: integer text -> int, decimal text -> float, #VALUE! fallback')
-    run.guard('C17.R1', _evaluated_then_structural, run, 'C17.R1', slices_eval, r1, rt)
-    run.guard('C17.R2', r2, run, src, g, em, rt)
-    run.guard('C17.R3', _evaluated_then_structural, run, 'C17.R3', search_eval, r3_r4, rt)
+    _cached_guard(run, 'C17.R1', _evaluated_then_structural, 'C17.R1', slices_eval, r1, rt)
+    _cached_guard(run, 'C17.R2', r2, src, g, em, rt)
+    _cached_guard(run, 'C17.R3', _evaluated_then_structural, 'C17.R3', search_eval, r3_r4, rt)
     # R4 is decided by evaluation; what the structural reading said about R4 (if it could read the code) is replaced by it
     r4_eval_ok = False
     sub4 = Run('tmp', run.tier, run.seed, quiet=True)
@@ -1010,9 +1011,9 @@ def run(run: Run):
             if (f_['construct'], f_['sub']) not in seen4:
                 seen4.add((f_['construct'], f_['sub']))
                 run.bad(f_['rule'], f_['construct'], f_['sub'], f_['message'], loc=f_['loc'])
-    run.guard('C17.R5', check_plumbing, run, 'C17.R5', src, em, rt, FUNCS)
-    run.guard('C17.R6', r6, run, src, g, em)
-    run.guard('C17.R7', _evaluated_then_structural, run, 'C17.R7', value_eval, r7, rt)
+    _cached_guard(run, 'C17.R5', check_plumbing, 'C17.R5', src, em, rt, FUNCS)
+    _cached_guard(run, 'C17.R6', r6, src, g, em)
+    _cached_guard(run, 'C17.R7', _evaluated_then_structural, 'C17.R7', value_eval, r7, rt)
     # a function result depends on its arguments only: no runtime helper keeps results or other state between calls
     from .common import borrow as _borrow
     from . import c08 as _c08
